@@ -33,6 +33,26 @@ func (c *RunCtx) Mine() bool {
 	return u%c.NShards == c.Shard
 }
 
+// Split distributes k independent configurations over the shards. With fewer
+// configurations than shards each configuration is explored by several
+// sub-shards (partition of its first-level successors). It returns, for this
+// worker, the configuration indices to run and the (sub, nsub) to pass to BFS.
+func (c *RunCtx) Split(k int) (idx []int, sub, nsub int) {
+	w := c.NShards
+	if k >= w {
+		for i := c.Shard; i < k; i += w {
+			idx = append(idx, i)
+		}
+		return idx, 0, 1
+	}
+	nsub = w / k
+	ci, sb := c.Shard%k, c.Shard/k
+	if sb >= nsub {
+		return nil, 0, 1
+	}
+	return []int{ci}, sb, nsub
+}
+
 // WorkerOutput is the JSON document one worker process writes.
 type WorkerOutput struct {
 	Check       string                 `json:"check"`
